@@ -868,6 +868,12 @@ static void run_group(long gi, void *unused)
                         fork_edit(&g, E_BYTE, o, k);
                     }
                 }
+                if (!thorough)
+                {
+                    /* two more set-to values that matter where the byte is a length or a count: 4 and 32 (val 8+v = "set to v") */
+                    if (g.seed[o] != 4) fork_edit(&g, E_BYTE, o, 8 + 4);
+                    if (g.seed[o] != 32) fork_edit(&g, E_BYTE, o, 8 + 32);
+                }
                 if (o + 1 < L)
                 {
                     for (k = 0; k < 6; k++)
